@@ -212,6 +212,10 @@ def part2(rep, prog, ix):
         return orig_run(**kw)
     fs.run = run_with
     res, obs, stats = run_regions(fs, regions=['topo.qlt', 'quick.qlt'])
+    # "exactly the platform's bytes": nothing the response is built from may be uninitialised scratch memory, e.g. the part of
+    # a getter's destination the getter did not write
+    from .dispatch import fail_obligations
+    fail_obligations(rep, obs, 'R08.5', kinds=('uninit-read', 'uninit-copy'))
     off_t = mk_cat((('in', 'frame', 35), ('in', 'frame', 34)))
     seq_t = mk_cat((('in', 'frame', 31), ('in', 'frame', 30)))
     nresp = 0
